@@ -34,6 +34,8 @@ macro_rules! impl_policy {
             }
 
             pub fn add(&self, key: u64, cost: i64) -> (Option<Vec<PolicyPair>>, bool) {
+                #[cfg(transparencies_stretto_verif)]
+                crate::verif::sched::point("policy:add:enter");
                 let mut inner = self.inner.lock();
                 let max_cost = inner.costs.get_max_cost();
                 #[cfg(transparencies_stretto_verif)]
@@ -161,6 +163,8 @@ macro_rules! impl_policy {
 
             #[inline]
             pub fn remove(&self, k: &u64) {
+                #[cfg(transparencies_stretto_verif)]
+                crate::verif::sched::point("policy:remove:enter");
                 let mut inner = self.inner.lock();
                 inner.costs.remove(k).map(|cost| {
                     self.metrics.add(MetricType::CostEvict, *k, cost as u64);
@@ -182,6 +186,8 @@ macro_rules! impl_policy {
 
             #[inline]
             pub fn update(&self, k: &u64, cost: i64) {
+                #[cfg(transparencies_stretto_verif)]
+                crate::verif::sched::point("policy:update:enter");
                 let mut inner = self.inner.lock();
                 inner.costs.update(k, cost);
                 #[cfg(transparencies_stretto_verif)]
